@@ -187,7 +187,7 @@ def make_entries(defs, cases, vectors, seed):
             write = None
             if sig["write"]:
                 chunks = g.rng.choice([[], ["a"], ["héllo", "", " €"], ["0123456789" * 3, "x"]])
-                write = {"chunks": chunks, "cap": g.rng.choice([1, 4, 64])}
+                write = {"chunks": chunks, "cap": g.rng.choice([0, 0, 1, 4, 64])}
             entries.append({"n": n, "sig": sig, "shape": c["shape"], "lay": c["lay"], "cbs": c.get("cbs"), "args": args, "retv": retv, "write": write})
             n += 1
     return g, entries
